@@ -190,19 +190,27 @@ bool Position::is_draw() const
     return rule50() || threefold_repetition() || !enough_material();
 }
 
+// _history is a ring buffer: only positions since the last irreversible move
+// (at most _half_move_counter plies back) can repeat, so games of any length
+// fit as long as MAX_PLIES exceeds the largest half-move clock.
+int Position::oldest_repeatable() const
+{
+    return std::max(0, _history_counter - 1 - int(_half_move_counter));
+}
+
 bool Position::threefold_repetition() const
 {
     int count = 1;
-    for (int i = _history_counter - 2; i >= 0; --i)
-        if (_history[i] == _zobrist_hash.get_key())
+    for (int i = _history_counter - 2; i >= oldest_repeatable(); --i)
+        if (_history[i % MAX_PLIES] == _zobrist_hash.get_key())
             if (++count == 3) return true;
     return false;
 }
 
 bool Position::is_repeated() const
 {
-    for (int i = _history_counter - 2; i >= 0; --i)
-        if (_history[i] == _zobrist_hash.get_key()) return true;
+    for (int i = _history_counter - 2; i >= oldest_repeatable(); --i)
+        if (_history[i % MAX_PLIES] == _zobrist_hash.get_key()) return true;
     return false;
 }
 
@@ -530,8 +538,7 @@ MoveInfo Position::do_move(Move move)
             set_enpassant_square(NO_SQUARE);
     }
 
-    assert(_history_counter < MAX_PLIES);
-    _history[_history_counter++] = _zobrist_hash.get_key();
+    _history[_history_counter++ % MAX_PLIES] = _zobrist_hash.get_key();
 
     return create_moveinfo(captured, prev_castling, prev_enpassant_sq,
                            enpassant, hm_counter);
